@@ -27,13 +27,22 @@ import MW.Lemmas.LedgerD2Ex
 namespace MW.Props.C01
 open MW MW.Model.Ledger MW.Spec.Chain MW.Spec.Books MW.Lemmas.Ledger
 
-/-- maturity_iff (coinbase): the wallet's confirmation arithmetic is the consensus coinbase rule -/
+/-- maturity_iff (coinbase, plain script): the wallet's confirmation arithmetic is the consensus coinbase rule
+    (a coinbase output with a standard / old-style binding script has no sequence lock) -/
 theorem maturity_iff_coinbase (p : Params) (tip : Nat) (c : SCoin) (hc : c.cb = true)
-    (h : c.height ≤ tip) (ht : tip < 2^63) :
+    (hk : c.cls = .std ∨ ∃ t, c.cls = .bindOld t) (h : c.height ≤ tip) (ht : tip < 2^63) :
     (confs tip c.height ≥ p.cbMaturity) ↔ spendableAt p tip c = true := by
   rw [confs_of_le tip c.height h ht]
-  unfold spendableAt
-  simp [hc]
+  rcases hk with hk | ⟨t, hk⟩ <;> simp [spendableAt, seqOK, hc, hk] <;> omega
+
+/-- maturity_iff (coinbase with a staking script): BOTH the coinbase maturity and the sequence lock of the
+    script: the wallet tests confs ≥ max cbMaturity (frozen+1) -/
+theorem maturity_iff_coinbase_staking (p : Params) (tip : Nat) (c : SCoin) (f : Nat) (hc : c.cb = true)
+    (hk : c.cls = .stk f) (h : c.height ≤ tip) (ht : tip < 2^63) :
+    (confs tip c.height ≥ max p.cbMaturity (f + 1)) ↔ spendableAt p tip c = true := by
+  rw [confs_of_le tip c.height h ht]
+  unfold spendableAt seqOK
+  simp only [hc, hk, if_true, Bool.and_eq_true, decide_eq_true_eq]
   omega
 
 /-- maturity_iff (staking): confs ≥ frozen+1 is the sequence-lock rule origin + (frozen+1) − 1 < tip+1 -/
@@ -41,7 +50,7 @@ theorem maturity_iff_staking (p : Params) (tip : Nat) (c : SCoin) (f : Nat) (hc 
     (hk : c.cls = .stk f) (h : c.height ≤ tip) (ht : tip < 2^63) :
     (confs tip c.height ≥ (Cls.stk f).maturity) ↔ spendableAt p tip c = true := by
   rw [confs_of_le tip c.height h ht]
-  unfold spendableAt Cls.maturity
+  unfold spendableAt seqOK Cls.maturity
   simp [hc, hk]
   omega
 
@@ -50,7 +59,7 @@ theorem maturity_iff_plain (p : Params) (tip : Nat) (c : SCoin) (hc : c.cb = fal
     (hk : c.cls = .std ∨ ∃ t, c.cls = .bindOld t) (h : c.height ≤ tip) (ht : tip < 2^63) :
     (confs tip c.height ≥ c.cls.maturity) ↔ spendableAt p tip c = true := by
   rw [confs_of_le tip c.height h ht]
-  rcases hk with hk | ⟨t, hk⟩ <;> simp [spendableAt, Cls.maturity, hc, hk]
+  rcases hk with hk | ⟨t, hk⟩ <;> simp [spendableAt, seqOK, Cls.maturity, hc, hk]
 
 /-- the spec ledger is compositional: processing one more block is `applyBlock` -/
 theorem ledgerOf_snoc (own : Own) (c : List Block) (b : Block) :
